@@ -1,6 +1,6 @@
 module verif.test/unitrun
 
-go 1.12
+go 1.18
 
 require github.com/magefile/mage v0.0.0
 
